@@ -10,6 +10,9 @@
    Float versus rational: the theorems are about the exact rational values of the float64 table entries and
    of the captured panner gains; finiteness / rounding of the final products is searched on the real code. -/
 import Earverif.Proofs.C10
+import Earverif.Proofs.C10Geom
+import Earverif.Proofs.C10Angle
+import Earverif.Proofs.C10Sqrt
 import Earverif.Gen.C10_Tables
 
 namespace Earverif.DS
@@ -91,15 +94,15 @@ section generic
 variable {R : List MappingRule} {P : List (String × String)} {L : Layout} {b : Block} {g : Geo}
 
 /-- Facts established at each exit: non-negative, Σ² ≤ 1 + 2⁻⁴⁰, zero outside the block's LFE class. -/
-structure ExitFacts (L : Layout) (lfe : Bool) (pv : List Rat) (cons : Prop) : Prop where
-  nonneg : ∀ x ∈ pv, 0 ≤ x
-  power : sumSq pv ≤ slack
+structure ExitFacts (L : Layout) (lfe : Bool) (pv : List Rat) (cons pok : Prop) : Prop where
+  nonneg : pok → ∀ x ∈ pv, 0 ≤ x
+  power : pok → sumSq pv ≤ slack
   lfe : cons → ZeroOff L.isLfe lfe pv
   len : pv.length = L.names.length
 
 theorem ruleStage_facts (hR : ∀ r ∈ R, ruleOk r = true) (hL : layoutOk L = true) {pv : List Rat}
-    (h : ruleStage R P L b = .ok (some pv)) :
-    ExitFacts L (isLfeChannel b) pv (PackConsistent P b) := by
+    (h : ruleStage R P L b = .ok (some pv)) (pok : Prop) :
+    ExitFacts L (isLfeChannel b) pv (PackConsistent P b) pok := by
   unfold ruleStage at h
   split at h
   · cases h
@@ -116,7 +119,7 @@ theorem ruleStage_facts (hR : ∀ r ∈ R, ruleOk r = true) (hL : layoutOk L = t
         obtain ⟨⟨hnn, hpow⟩, hsep⟩ := hok
         injection h with h; injection h with h
         subst h; subst hg
-        refine ⟨?_, ?_, ?_, by simp [length_assign, zeros]⟩
+        refine ⟨fun _ => ?_, fun _ => ?_, ?_, by simp [length_assign, zeros]⟩
         · exact nonneg_assign _ _ _ hnn (nonneg_zeros _)
         · have := sumSq_assign_le L.names r.gains (zeros L.names.length)
           rw [sumSq_zeros] at this; linarith
@@ -129,10 +132,10 @@ theorem ruleStage_facts (hR : ∀ r ∈ R, ruleOk r = true) (hL : layoutOk L = t
       · cases h
 
 theorem label_facts (hL : layoutOk L = true) {lfe : Bool} {ls : List String} {idx : Nat}
-    (h : labelMatch L lfe ls = some idx) (cons : Prop) :
-    ExitFacts L lfe (unitVec L.names.length idx) cons := by
+    (h : labelMatch L lfe ls = some idx) (cons pok : Prop) :
+    ExitFacts L lfe (unitVec L.names.length idx) cons pok := by
   obtain ⟨hlt, hflag⟩ := labelMatch_some h
-  refine ⟨nonneg_unitVec _ _, le_trans (sumSq_unitVec_le _ _) slack_ge_one, fun _ => ?_, length_unitVec _ _⟩
+  refine ⟨fun _ => nonneg_unitVec _ _, fun _ => le_trans (sumSq_unitVec_le _ _) slack_ge_one, fun _ => ?_, length_unitVec _ _⟩
   have hlt' : idx < L.isLfe.length := by rw [isLfe_length hL]; exact hlt
   have : L.isLfe[idx]? = some lfe := by
     rw [List.getD_eq_getElem?_getD, List.getElem?_eq_getElem hlt'] at hflag
@@ -142,8 +145,8 @@ theorem label_facts (hL : layoutOk L = true) {lfe : Bool} {ls : List String} {id
 
 theorem lateExit_facts (hL : layoutOk L = true) {lfe : Bool}
     (hcl : ∀ c, g.closest = some c → (candidates L lfe g.withinBounds)[c]? = some true)
-    (hnn : ∀ x ∈ g.psp, 0 ≤ x) (hpow : sumSq g.psp ≤ slack) {e : Exit} {pv : List Rat}
-    (h : lateExit L lfe g = .ok (e, pv)) (cons : Prop) : ExitFacts L lfe pv cons := by
+    {pok : Prop} (hnn : pok → ∀ x ∈ g.psp, 0 ≤ x) (hpow : pok → sumSq g.psp ≤ slack) {e : Exit} {pv : List Rat}
+    (h : lateExit L lfe g = .ok (e, pv)) (cons : Prop) : ExitFacts L lfe pv cons pok := by
   have hlen := isLfe_length hL
   unfold lateExit at h
   simp only at h
@@ -151,7 +154,7 @@ theorem lateExit_facts (hL : layoutOk L = true) {lfe : Bool}
   · -- closest loudspeaker within bounds
     rename_i c hc
     injection h with h; injection h with _ h; subst h
-    refine ⟨nonneg_unitVec _ _, le_trans (sumSq_unitVec_le _ _) slack_ge_one, fun _ => ?_, length_unitVec _ _⟩
+    refine ⟨fun _ => nonneg_unitVec _ _, fun _ => le_trans (sumSq_unitVec_le _ _) slack_ge_one, fun _ => ?_, length_unitVec _ _⟩
     have hcs : g.closest = some c := by
       split at hc
       · exact hc
@@ -172,14 +175,14 @@ theorem lateExit_facts (hL : layoutOk L = true) {lfe : Bool}
       · -- LFE without own output → LFE1
         rename_i hc1
         injection h with h; injection h with _ h; subst h
-        refine ⟨nonneg_unitVec _ _, le_trans (sumSq_unitVec_le _ _) slack_ge_one, fun _ => ?_, length_unitVec _ _⟩
+        refine ⟨fun _ => nonneg_unitVec _ _, fun _ => le_trans (sumSq_unitVec_le _ _) slack_ge_one, fun _ => ?_, length_unitVec _ _⟩
         have := isLfe_at_idxOf hL (List.contains_iff_mem.mp hc1)
         have hz := zeroOff_unitVec (mask := L.isLfe) (v := lfe) (L.names.idxOf "LFE1")
           (Or.inl (by rw [this, hlfe]; rfl))
         rwa [hlen] at hz
       · -- LFE discarded
         injection h with h; injection h with _ h; subst h
-        refine ⟨nonneg_zeros _, by rw [sumSq_zeros]; exact le_trans (by decide) slack_ge_one, fun _ => ?_,
+        refine ⟨fun _ => nonneg_zeros _, fun _ => by rw [sumSq_zeros]; exact le_trans (by decide) slack_ge_one, fun _ => ?_,
           by simp [zeros]⟩
         have hz := zeroOff_zeros L.isLfe lfe
         rwa [hlen] at hz
@@ -188,15 +191,16 @@ theorem lateExit_facts (hL : layoutOk L = true) {lfe : Bool}
       · -- point-source fallback
         rename_i q hq
         injection h with h; injection h with _ h; subst h
-        refine ⟨nonneg_scatter _ _ _ hq hnn, by rw [sumSq_scatter _ _ _ hq]; exact hpow, fun _ => ?_,
+        refine ⟨fun hp => nonneg_scatter _ _ _ hq (hnn hp), fun hp => by rw [sumSq_scatter _ _ _ hq]; exact hpow hp, fun _ => ?_,
           by rw [length_scatter _ _ _ hq, hlen]⟩
         have : lfe = false := by simpa using hlfe
         rw [this]; exact zeroOff_scatter _ _ _ hq
       · cases h
 
-theorem handleNoGain_facts (hR : ∀ r ∈ R, ruleOk r = true) (hL : layoutOk L = true) (hg : GeoOk L b g)
+theorem handleNoGain_facts (hR : ∀ r ∈ R, ruleOk r = true) (hL : layoutOk L = true)
+    (hcl : ∀ c, g.closest = some c → (candidates L (isLfeChannel b) g.withinBounds)[c]? = some true)
     {e : Exit} {pv : List Rat} (h : handleNoGain R P L b g = .ok (e, pv)) :
-    ExitFacts L (isLfeChannel b) pv (PackConsistent P b) := by
+    ExitFacts L (isLfeChannel b) pv (PackConsistent P b) ((∀ x ∈ g.psp, 0 ≤ x) ∧ sumSq g.psp ≤ slack) := by
   unfold handleNoGain at h
   split at h
   · cases h
@@ -209,13 +213,13 @@ theorem handleNoGain_facts (hR : ∀ r ∈ R, ruleOk r = true) (hL : layoutOk L 
       · cases hr
       · rename_i pv' hrs
         injection hr with hr; injection hr with hr; injection hr with _ hr; subst hr
-        exact ruleStage_facts hR hL hrs
+        exact ruleStage_facts hR hL hrs _
       · split at hr
         · rename_i idx hm
           injection hr with hr; injection hr with hr; injection hr with _ hr; subst hr
-          exact label_facts hL hm _
+          exact label_facts hL hm _ _
         · cases hr
-    · exact lateExit_facts hL hg.1 hg.2.1 hg.2.2 h _
+    · exact lateExit_facts hL hcl (fun hp => hp.1) (fun hp => hp.2) h _
 
 theorem handle_ok {e : Exit} {pv : List Rat} (h : handle R P L b g = .ok (e, pv)) :
     ∃ pv0, handleNoGain R P L b g = .ok (e, pv0) ∧ pv = scale b pv0 := by
@@ -237,22 +241,22 @@ theorem ds_nonneg (L : Layout) (b : Block) (g : Geo) (hL : layoutOk L = true) (h
     (hgain : 0 ≤ b.gain) (hog : 0 ≤ b.objectGain) (e : Exit) (pv : List Rat)
     (h : handle rules ituPacks L b g = .ok (e, pv)) : ∀ x ∈ pv, 0 ≤ x := by
   obtain ⟨pv0, h0, rfl⟩ := handle_ok h
-  have hf := handleNoGain_facts rules_ok hL hg h0
+  have hf := handleNoGain_facts rules_ok hL hg.1 h0
   have hog' : 0 ≤ objectGainOf b := by unfold objectGainOf; split <;> simp [hog]
   intro x hx
   simp only [scale, List.mem_map] at hx
   obtain ⟨y, hy, rfl⟩ := hx
-  exact mul_nonneg (mul_nonneg (hf.nonneg y hy) hgain) hog'
+  exact mul_nonneg (mul_nonneg (hf.nonneg hg.2 y hy) hgain) hog'
 
 /-- Never amplify: Σ g² ≤ (block gain × object gain)² · (1 + 2⁻⁴⁰). -/
 theorem ds_power_le (L : Layout) (b : Block) (g : Geo) (hL : layoutOk L = true) (hg : GeoOk L b g)
     (e : Exit) (pv : List Rat) (h : handle rules ituPacks L b g = .ok (e, pv)) :
     sumSq pv ≤ (b.gain * objectGainOf b) * (b.gain * objectGainOf b) * slack := by
   obtain ⟨pv0, h0, rfl⟩ := handle_ok h
-  have hf := handleNoGain_facts rules_ok hL hg h0
+  have hf := handleNoGain_facts rules_ok hL hg.1 h0
   rw [scale, sumSq_map_mul]
   have hsq := mul_self_nonneg (b.gain * objectGainOf b)
-  have := mul_le_mul_of_nonneg_right hf.power hsq
+  have := mul_le_mul_of_nonneg_right (hf.power hg.2) hsq
   linarith [mul_comm slack (b.gain * objectGainOf b * (b.gain * objectGainOf b))]
 
 /-- An LFE channel (`is_lfe_channel`) reaches only LFE outputs (or nothing): zero gain at every non-LFE
@@ -262,7 +266,7 @@ theorem ds_lfe_in_only_lfe_out (L : Layout) (b : Block) (g : Geo) (hL : layoutOk
     (h : handle rules ituPacks L b g = .ok (e, pv)) :
     ∀ i : Nat, L.isLfe[i]? = some false → pv[i]? = some 0 := by
   obtain ⟨pv0, h0, rfl⟩ := handle_ok h
-  have hf := handleNoGain_facts rules_ok hL hg h0
+  have hf := handleNoGain_facts rules_ok hL hg.1 h0
   have hz := zeroOff_scale b (hf.lfe hc)
   rw [hlfe] at hz
   exact hz
@@ -273,7 +277,7 @@ theorem ds_nonlfe_never_lfe_out (L : Layout) (b : Block) (g : Geo) (hL : layoutO
     (h : handle rules ituPacks L b g = .ok (e, pv)) :
     ∀ i : Nat, L.isLfe[i]? = some true → pv[i]? = some 0 := by
   obtain ⟨pv0, h0, rfl⟩ := handle_ok h
-  have hf := handleNoGain_facts rules_ok hL hg h0
+  have hf := handleNoGain_facts rules_ok hL hg.1 h0
   have hz := zeroOff_scale b (hf.lfe hc)
   rw [hlfe] at hz
   exact hz
@@ -283,7 +287,7 @@ theorem ds_length (L : Layout) (b : Block) (g : Geo) (hL : layoutOk L = true) (h
     (e : Exit) (pv : List Rat) (h : handle rules ituPacks L b g = .ok (e, pv)) :
     pv.length = L.names.length := by
   obtain ⟨pv0, h0, rfl⟩ := handle_ok h
-  have hf := handleNoGain_facts rules_ok hL hg h0
+  have hf := handleNoGain_facts rules_ok hL hg.1 h0
   simp [scale, hf.len]
 
 /-- `PackConsistent` holds for every common-definition channel inside its pack (so the two LFE theorems
@@ -401,6 +405,132 @@ theorem ds_rejects_position_offset (L : Layout) (b : Block) (g : Geo) (h : b.has
     handle rules ituPacks L b g = .error .positionOffset := by
   simp [handle, handleNoGain, h]
 
+/-! ## round 2: the geometry inside the model
+
+`handleFull` computes `channels_within_bounds` (polar with `inside_angle_range`, pole rule, elevation and
+distance bounds, polar screen edge lock; Cartesian bounds), the LFE-class candidate mask and
+`closest_channel_index` (squared distances to the table positions, unique minimum within `tol`) itself.  The
+function-level theorems are in `Proofs/C10Geom` (`closestIndex_is_candidate`, `closestIndex_is_min`,
+`closestIndex_unique`, `closestIndex_tie_none`, `candidates_same_class`, `closest_same_class`, `handleAzEl_*`),
+`Proofs/C10Angle` (`normAngle_spec`, `insideAngleRange_iff`) and `Proofs/C10Sqrt` (`closeTo_iff_sqrt`).
+What is left as a parameter: the Cartesian vector of the shifted position, the Cartesian screen edge lock and
+the point-source gains (`PspOk`). -/
+
+/-- The regenerated geometry table has an entry of the right shape for each of the ten layouts. -/
+def geomShapeOk (L : Layout) : Bool :=
+  match geoms.lookup L.name with
+  | some G =>
+    let n := L.names.length
+    G.az.length == n && G.el.length == n && G.dist.length == n && G.pos.length == n && G.allo.length == n
+  | none => false
+
+theorem geoms_cover_layouts : layouts.all geomShapeOk = true := by decide +kernel
+
+/-- The only hypothesis left on the geometry: the point-source panner result. -/
+def PspOk (gi : GeoIn) : Prop := (∀ x ∈ gi.psp, 0 ≤ x) ∧ sumSq gi.psp ≤ slack
+
+theorem geo_ds_nonneg (L : Layout) (G : LayoutGeom) (b : Block) (gi : GeoIn) (hL : layoutOk L = true)
+    (hp : PspOk gi) (hgain : 0 ≤ b.gain) (hog : 0 ≤ b.objectGain) (e : Exit) (pv : List Rat)
+    (h : handleFull rules ituPacks L G b gi = .ok (e, pv)) : ∀ x ∈ pv, 0 ≤ x :=
+  ds_nonneg L b _ hL (geoOf_ok hp.1 hp.2) hgain hog e pv h
+
+theorem geo_ds_power_le (L : Layout) (G : LayoutGeom) (b : Block) (gi : GeoIn) (hL : layoutOk L = true)
+    (hp : PspOk gi) (e : Exit) (pv : List Rat) (h : handleFull rules ituPacks L G b gi = .ok (e, pv)) :
+    sumSq pv ≤ (b.gain * objectGainOf b) * (b.gain * objectGainOf b) * slack :=
+  ds_power_le L b _ hL (geoOf_ok hp.1 hp.2) e pv h
+
+/-- LFE channel ⇒ only LFE outputs, with NO hypothesis on the geometry: the closest-loudspeaker exit is
+    covered by `closestIndex_is_candidate` on the masked candidate set. -/
+theorem geo_ds_lfe_in_only_lfe_out (L : Layout) (G : LayoutGeom) (b : Block) (gi : GeoIn)
+    (hL : layoutOk L = true) (hc : PackConsistent ituPacks b) (hlfe : isLfeChannel b = true)
+    (e : Exit) (pv : List Rat) (h : handleFull rules ituPacks L G b gi = .ok (e, pv)) :
+    ∀ i : Nat, L.isLfe[i]? = some false → pv[i]? = some 0 := by
+  unfold handleFull at h
+  obtain ⟨pv0, h0, rfl⟩ := handle_ok h
+  have hf := handleNoGain_facts rules_ok hL (fun _ hcl => closestIndex_is_candidate hcl) h0
+  have hz := zeroOff_scale b (hf.lfe hc)
+  rw [hlfe] at hz
+  exact hz
+
+/-- Non-LFE channel ⇒ never an LFE output, with NO hypothesis on the geometry. -/
+theorem geo_ds_nonlfe_never_lfe_out (L : Layout) (G : LayoutGeom) (b : Block) (gi : GeoIn)
+    (hL : layoutOk L = true) (hc : PackConsistent ituPacks b) (hlfe : isLfeChannel b = false)
+    (e : Exit) (pv : List Rat) (h : handleFull rules ituPacks L G b gi = .ok (e, pv)) :
+    ∀ i : Nat, L.isLfe[i]? = some true → pv[i]? = some 0 := by
+  unfold handleFull at h
+  obtain ⟨pv0, h0, rfl⟩ := handle_ok h
+  have hf := handleNoGain_facts rules_ok hL (fun _ hcl => closestIndex_is_candidate hcl) h0
+  have hz := zeroOff_scale b (hf.lfe hc)
+  rw [hlfe] at hz
+  exact hz
+
+theorem geo_ds_length (L : Layout) (G : LayoutGeom) (b : Block) (gi : GeoIn) (hL : layoutOk L = true)
+    (e : Exit) (pv : List Rat) (h : handleFull rules ituPacks L G b gi = .ok (e, pv)) :
+    pv.length = L.names.length := by
+  unfold handleFull at h
+  obtain ⟨pv0, h0, rfl⟩ := handle_ok h
+  have hf := handleNoGain_facts rules_ok hL (fun _ hcl => closestIndex_is_candidate hcl) h0
+  simp [scale, hf.len]
+
+/-- The `closest` exit, spelled out: the gain vector is the unit vector (× gains) of a loudspeaker `c` that
+    is within the bounds, has the LFE class of the block, is at minimal distance among the candidates, and
+    every other candidate is farther than `min_dist + tol`. -/
+theorem geo_closest_exit (L : Layout) (G : LayoutGeom) (b : Block) (gi : GeoIn) (pv : List Rat)
+    (h : handleFull rules ituPacks L G b gi = .ok (.closest, pv)) :
+    ∃ c, pv = scale b (unitVec L.names.length c) ∧
+      (withinBounds G gi.pos gi.tol)[c]? = some true ∧ L.isLfe[c]? = some (isLfeChannel b) ∧
+      ∀ j, (candidates L (isLfeChannel b) (withinBounds G gi.pos gi.tol))[j]? = some true →
+        sqDist ((positionsFor G gi.pos).getD c (0, 0, 0)) gi.cartPos
+            ≤ sqDist ((positionsFor G gi.pos).getD j (0, 0, 0)) gi.cartPos ∧
+        (j ≠ c → closeTo (sqDist ((positionsFor G gi.pos).getD c (0, 0, 0)) gi.cartPos) gi.tol
+            (sqDist ((positionsFor G gi.pos).getD j (0, 0, 0)) gi.cartPos) = false) := by
+  unfold handleFull at h
+  obtain ⟨pv0, h0, rfl⟩ := handle_ok h
+  unfold handleNoGain at h0
+  split at h0
+  · cases h0
+  · split at h0
+    · cases h0
+    · -- early exits are `rule` / `label`, never `closest`
+      rename_i r hr
+      injection h0 with h0; subst h0
+      unfold earlyExit at hr
+      split at hr
+      · cases hr
+      · injection hr with hr; injection hr with hr; injection hr with he _; cases he
+      · split at hr
+        · injection hr with hr; injection hr with hr; injection hr with he _; cases he
+        · cases hr
+    · unfold lateExit at h0
+      simp only at h0
+      split at h0
+      · rename_i c hc
+        injection h0 with h0; injection h0 with _ h0; subst h0
+        have hcs : closestIndex (positionsFor G gi.pos) gi.cartPos
+            (candidates L (isLfeChannel b) (withinBounds G gi.pos gi.tol)) gi.tol = some c := by
+          split at hc
+          · exact hc
+          · cases hc
+        have hcand := closestIndex_is_candidate hcs
+        have hcl := candidates_same_class hcand
+        exact ⟨c, rfl, hcl.2, hcl.1, fun j hj =>
+          ⟨closestIndex_is_min hcs j hj, fun hne => closestIndex_unique hcs j hj hne⟩⟩
+      · split at h0
+        · split at h0 <;> (injection h0 with h0; injection h0 with he _; cases he)
+        · split at h0
+          · injection h0 with h0; injection h0 with he _; cases he
+          · cases h0
+
+/-- Pass-through with the geometry inside the model (it is never consulted). -/
+theorem geo_ds_passthrough (L : Layout) (hL : L ∈ layouts) (G : LayoutGeom) (p : CommonPack) (hp : p ∈ commonPacks)
+    (hitu : ituPacks.lookup p.id = some L.name) (c : CommonChannel) (hc : c ∈ p.channels)
+    (gain og : Rat) (mute : Bool) (gi : GeoIn) :
+    ∃ l e, c.labels.head? = some l ∧ nominalSpeakerLabel l ∈ L.names ∧
+      handleFull rules ituPacks L G (c.block p.id gain og mute) gi =
+        .ok (e, (unitVec L.names.length (L.names.idxOf (nominalSpeakerLabel l))).map
+              (fun x => x * gain * (if mute then 0 else og))) :=
+  ds_passthrough L hL p hp hitu c hc gain og mute _
+
 /-! ## without the hypothesis: what the mapping-rule branch does with a frequency-only LFE channel
 
 The mapping-rule branch keys on the first speakerLabel only.  A block that claims to sit in a common-definition
@@ -473,5 +603,48 @@ example : [ "urn:itu:bs:2051:0:speaker:M+030", "urn:itu:bs:2051:12:speaker:LFER"
             "xurn:itu:bs:2051:0:speaker:M+030" ].map nominalSpeakerLabel
     = [ "M+030", "LFE2", "urn:itu:bs:2051::speaker:M+030", "M+030", "urn:itu:bs:2051:0:speaker:M+0\n30", "LFE1", "lfe",
         "xurn:itu:bs:2051:0:speaker:M+030" ] := by decide +kernel
+
+/-! ### non-vacuity of the geometric model (layouts and positions from the regenerated tables) -/
+
+def fullOn (lname : String) (b : Block) (gi : GeoIn) : Option (Except DsError (Exit × List Rat)) :=
+  match layouts.find? (fun L => L.name == lname), geoms.lookup lname with
+  | some L, some G => some (handleFull rules ituPacks L G b gi)
+  | _, _ => none
+
+def bnd (v : Rat) (lo hi : Option Rat := none) : Bound := ⟨v, lo, hi⟩
+def tol5 : Rat := 1 / 100000
+
+/-- closest exit: azimuth 10° with bounds [0°, 40°] on 0+5+0 → M+000 (M+030 is within bounds but farther) -/
+example : fullOn "0+5+0" (blk ["foo"] none none 1)
+    ⟨.polar (bnd 10 (some 0) (some 40)) (bnd 0) (bnd 1) ⟨none, none⟩, tol5, (-17365 / 100000, 98481 / 100000, 0), []⟩
+    = some (.ok (.closest, [0, 0, 1, 0, 0, 0])) := by decide +kernel
+
+/-- the LFE-class mask: an LFE-by-frequency block at the front with wide bounds (M+030, M-030, M+000 and LFE1
+    are all within bounds, M+000 is closest) goes to LFE1, the only candidate of its class -/
+example : fullOn "0+5+0" (blk [] (some 120) none 1)
+    ⟨.polar (bnd 0 (some (-50)) (some 50)) (bnd 0 (some (-40)) (some 10)) (bnd 1) ⟨none, none⟩, tol5, (0, 1, 0), []⟩
+    = some (.ok (.closest, [0, 0, 0, 1, 0, 0])) := by decide +kernel
+
+/-- ... and the same position as a non-LFE block goes to M+000, never to LFE1 -/
+example : fullOn "0+5+0" (blk [] none none 1)
+    ⟨.polar (bnd 0 (some (-50)) (some 50)) (bnd 0 (some (-40)) (some 10)) (bnd 1) ⟨none, none⟩, tol5, (0, 1, 0), []⟩
+    = some (.ok (.closest, [0, 0, 1, 0, 0, 0])) := by decide +kernel
+
+/-- tie ⇒ none: straight ahead on 0+2+0 with bounds [-30°, 30°], M+030 and M-030 are equidistant, so the
+    point-source gains are used -/
+example : fullOn "0+2+0" (blk [] none none 1)
+    ⟨.polar (bnd 0 (some (-30)) (some 30)) (bnd 0) (bnd 1) ⟨none, none⟩, tol5, (0, 1, 0), [3 / 5, 4 / 5]⟩
+    = some (.ok (.pointSource, [3 / 5, 4 / 5])) := by decide +kernel
+
+/-- polar screen edge lock: azimuth 0° locked to the left screen edge (29°) is within [20°, 40°] → M+030 -/
+example : fullOn "0+5+0" (blk [] none none 1)
+    ⟨.polar (bnd 0 (some 20) (some 40)) (bnd 0) (bnd 1) ⟨some "left", none⟩, tol5, (-48481 / 100000, 87462 / 100000, 0), []⟩
+    = some (.ok (.closest, [1, 0, 0, 0, 0, 0])) := by decide +kernel
+
+/-- Cartesian bounds: X ∈ [-1, 1] at Y = 1, Z = 0 near X = -0.45 on 9+10+3 → M+000 (as test_dist_bounds_cart) -/
+example : (fullOn "9+10+3" (blk [] none none 1)
+    ⟨.cart (bnd (-45 / 100) (some (-1)) (some 1)) (bnd 1) (bnd 0), tol5, (-45 / 100, 1, 0), []⟩).map
+      (fun r => r.toOption.map (fun q => (q.1, q.2.idxOf 1)))
+    = some (some (.closest, 2)) := by decide +kernel
 
 end Earverif.DS
